@@ -401,3 +401,42 @@ def late_capture_cases():
                     pre += [use(), use(), p.emit([p.str("regs"), p.id("r1"), p.id("r5")])]
                     out.append((p, p.block(pre)))
     return out
+
+
+def twin_env_cases():
+    """closures made from ONE function expression that captures nothing are still separate objects, each with its own
+    environment: setfenv on one (from outside, or setfenv(1, ...) run inside it) leaves the others reading and writing
+    globals through the table they had; they are not equal to each other either"""
+    out = []
+    for how in ("loop", "factory", "factory-nested"):
+        for change in ("setfenv-outside", "setfenv-inside", "both"):
+            for n in (2, 3):
+                p = Prog()
+                lit = lambda: p.func(["cmd"], p.block([
+                    p.if_([p.bin("==", p.id("cmd"), p.str("move"))], [p.block([p.callstat(p.call(p.id("setfenv"), [p.num(1), p.id("GE2")]))])]),
+                    p.if_([p.bin("==", p.id("cmd"), p.str("write"))], [p.block([p.assign([p.id("written")], [p.str("w")])])]),
+                    p.ret([p.id("who")])]))
+                ss = [p.assign([p.id("who")], [p.str("globals")]),
+                      p.local(["E1", "E2"], [p.table([("k", _name(p, "who"), p.str("E1"))]), p.table([("k", _name(p, "who"), p.str("E2"))])]),
+                      p.assign([p.id("GE2")], [p.id("E2")]),     # the GLOBAL name the literal reads when told to move (it must not capture anything)
+                      p.local(["fs"], [p.table([])])]
+                if how == "loop":
+                    ss.append(p.fornum("i", p.num(1), p.num(n), 0, p.block([p.assign([p.index(p.id("fs"), p.id("i"))], [lit()])])))
+                elif how == "factory":
+                    ss.append(p.localfunction("mk", p.func([], p.block([p.ret([lit()])]))))
+                    ss += [p.assign([p.index(p.id("fs"), p.num(i))], [p.call(p.id("mk"), [])]) for i in range(1, n + 1)]
+                else:
+                    ss.append(p.localfunction("mk", p.func([], p.block([p.ret([p.call(p.paren(p.func([], p.block([p.ret([lit()])]))), [])])]))))
+                    ss += [p.assign([p.index(p.id("fs"), p.num(i))], [p.call(p.id("mk"), [])]) for i in range(1, n + 1)]
+                ss.append(p.emit([p.str("distinct"), p.bin("==", p.index(p.id("fs"), p.num(1)), p.index(p.id("fs"), p.num(2))),
+                                  p.bin("==", p.call(p.id("getfenv"), [p.index(p.id("fs"), p.num(1))]), p.call(p.id("getfenv"), [p.index(p.id("fs"), p.num(2))]))]))
+                if change in ("setfenv-outside", "both"):
+                    ss.append(p.callstat(p.call(p.id("setfenv"), [p.index(p.id("fs"), p.num(1)), p.id("E1")])))
+                if change in ("setfenv-inside", "both"):
+                    ss.append(p.emit([p.str("moved"), p.call(p.index(p.id("fs"), p.num(n)), [p.str("move")])]))
+                ss.append(p.emit([p.str("reads")] + [p.call(p.index(p.id("fs"), p.num(i)), [p.str("read")]) for i in range(1, n + 1)]))
+                ss += [p.callstat(p.call(p.index(p.id("fs"), p.num(i)), [p.str("write")])) for i in range(1, n + 1)]
+                ss.append(p.emit([p.str("writes"), p.id("written"), p.field(p.id("E1"), "written"), p.field(p.id("E2"), "written")]))
+                ss.append(p.emit([p.str("envs")] + [p.bin("==", p.call(p.id("getfenv"), [p.index(p.id("fs"), p.num(i))]), p.id("_G")) for i in range(1, n + 1)]))
+                out.append((p, p.block(ss)))
+    return out
